@@ -3,6 +3,7 @@
 -/
 import ErgoProofs.Lemmas.ConcReach
 import ErgoProofs.Lemmas.ProgramThm
+import ErgoProofs.Lemmas.ProcBytesThm
 namespace Ergo
 open Proc
 
@@ -92,4 +93,21 @@ theorem C02_lock_file_keeps_its_identity (p : List Program.Call)
     (h : Program.writerOK p = true ∨ Program.busyOK p = true ∨ Program.readerOK p = true) :
     ∀ c ∈ p, Program.mutatesLock c = false :=
   Program.lock_identity_kept p h
+
+/-! ### the same processes over bytes (ErgoModel.ProcBytes: files in ergo's real line format, one `write(2)` per batch, rewrites by rename) -/
+
+/-- refinement: a run of the byte-level system — any number of writers and readers, any schedule, deaths between system calls — is a run of the
+    process model on the decoded files; so every theorem above is a theorem about what is on disk -/
+theorem C02_bytes_refine_the_process_model {a b : ProcB.BSys} (h : ProcB.BReachableNT a b) (ha : ProcB.Inv a) :
+    Proc.Reachable (ProcB.abs a) (ProcB.abs b) ∧ ProcB.Inv b :=
+  ProcB.reach_sim h ha
+
+/-- the bytes under the log's name decode to the committed sections applied one after the other, in lock order -/
+theorem C02_bytes_are_the_serial_fold (f : Storage.Bytes) (ws : List (List Event → Except CmdErr Write)) (nr limit : Nat) (ets : Event → String)
+    (es : List Event) (hf : Storage.readEvents Codec.classifyLine limit f = .ok es) (hfw : Codec.AllWf es)
+    (hw : ∀ d ∈ ws, ∀ snap wr, Codec.AllWf snap → d snap = .ok wr → Codec.AllWf wr.events)
+    (s : ProcB.BSys) (h : ProcB.BReachableNT (ProcB.BSys.init f ws nr limit ets) s) :
+    Storage.readEvents Codec.classifyLine limit s.file = .ok (Proc.logAfter es s.commits s.commits.length) :=
+  ProcB.bytes_are_serial_fold f ws nr limit ets es hf hfw hw s h
+
 end Ergo
